@@ -72,10 +72,12 @@ type cmd struct {
 	Target int    // mailbox number for SELECT/EXAMINE (model argument)
 	Name   string // LOGIN
 	Pass   string
-	Append string // APPEND target mailbox
-	RoRes  string // handler result when the selected mailbox is read-only (default = Res)
-	Res    string // handler result when admitted: OK NO BAD
-	Data   string // "" | "body" (answers carry message literals) | "list"
+	Append string   // APPEND target mailbox
+	RoRes  string   // handler result when the selected mailbox is read-only (default = Res)
+	Res    string   // handler result when admitted: OK NO BAD
+	Data   string   // "" | "body" (answers carry message literals) | "list"
+	Parts  []string // with Lits: the command is sent with synchronising literals (parts[0] {n} lit[0] parts[1] …)
+	Lits   [][]byte
 }
 
 const (
@@ -254,6 +256,12 @@ func (x *hs) send(c *conn, k cmd) (string, imapc.Result) {
 	case k.Append != "":
 		r, err := cl.Append(k.Append, "", common.Message(fmt.Sprintf("%s-new-%d", x.marker, x.newN), "appended by the harness"))
 		if err != nil {
+			return "NONE", r
+		}
+		return r.Status, r
+	case len(k.Parts) > 0:
+		r, err := cl.CmdParts(k.Parts, k.Lits)
+		if err != nil || r.Status == "" {
 			return "NONE", r
 		}
 		return r.Status, r
@@ -836,8 +844,8 @@ func runC18(ctx *common.Ctx) error {
 	}
 
 	// ---- C. credential pairs ----
-	names := []string{"alice", "alice@example.com", "bob", "carol", "nobody", "ALICE", "alice "}
-	passes := []string{"pw-alice", "pw-bob", "pw-carol", "wrong", "PW-ALICE", "pw-alice "}
+	names := []string{"alice", "alice@example.com", "bob", "carol", "nobody", "ALICE", "alice ", ""}
+	passes := []string{"pw-alice", "pw-bob", "pw-carol", "wrong", "PW-ALICE", "pw-alice ", ""}
 	for _, n := range names {
 		for _, p := range passes {
 			scen := "credentials"
@@ -949,17 +957,41 @@ func (x *hs) jail(thorough bool, jailTime time.Duration, onlyFirst bool) error {
 		conn int
 		name string
 		pass string
+		lit  bool // name and password travel as literals ({0} for an empty one), else as atoms / quoted strings
 	}
-	bad := func(c int) att { return att{c, "alice", "wrong"} }
-	good := att{3, "bob", "pw-bob"}
+	bad := func(c int) att { return att{conn: c, name: "alice", pass: "wrong"} }
+	good := att{conn: 3, name: "bob", pass: "pw-bob"}
+	// credentials with an empty part: failures like any other
+	emptyPassQ := att{conn: 1, name: "alice", pass: ""}
+	emptyPassL := att{conn: 2, name: "alice", pass: "", lit: true}
+	emptyNameQ := att{conn: 1, name: "", pass: "pw-alice"}
+	emptyNameL := att{conn: 2, name: "", pass: "pw-alice", lit: true}
+	emptyBothQ := att{conn: 1, name: "", pass: ""}
+	loginCmd := func(a att) cmd {
+		k := cmd{K: "CLogin", Class: "notauth", Name: a.name, Pass: a.pass}
+		if a.lit {
+			k.Parts, k.Lits = []string{"LOGIN ", " ", ""}, [][]byte{[]byte(a.name), []byte(a.pass)}
+			k.Line = fmt.Sprintf("LOGIN {%d} {%d}", len(a.name), len(a.pass))
+		} else {
+			k.Line = fmt.Sprintf("LOGIN %s %s", imapc.Quote(a.name), imapc.Quote(a.pass))
+		}
+		return k
+	}
 	// every script: ... three consecutive failures (possibly from different connections), then one more attempt
 	scripts := [][]att{
-		{bad(1), bad(1), bad(1), good},                                           // same connection, 4th = valid credentials
-		{bad(1), bad(2), {2, "nobody", "pw-bob"}, bad(1)},                        // three connections/kinds, 4th fails too
-		{bad(1), bad(1), {2, "alice", "pw-alice"}, bad(1), bad(1), bad(2), good}, // a success resets the count
+		{bad(1), bad(1), bad(1), good},                                                             // same connection, 4th = valid credentials
+		{bad(1), bad(2), {conn: 2, name: "nobody", pass: "pw-bob"}, bad(1)},                        // three connections/kinds, 4th fails too
+		{bad(1), bad(1), {conn: 2, name: "alice", pass: "pw-alice"}, bad(1), bad(1), bad(2), good}, // a success resets the count
 	}
 	// two jail rounds in a row, no success in between: the 4th and the 7th attempt must wait
 	scripts = append(scripts, []att{bad(1), bad(1), bad(1), bad(1), bad(1), bad(1), good})
+	// every failed LOGIN counts and every LOGIN waits, whatever the credentials: empty name / empty password, as a quoted
+	// empty string and as a {0} literal, as the failures that fill the counter and as the attempt during the jail
+	scripts = append(scripts,
+		[]att{emptyPassQ, emptyPassL, emptyNameQ, good},
+		[]att{emptyNameL, emptyBothQ, emptyPassQ, emptyPassL, emptyPassQ, emptyNameL, bad(1)},
+		[]att{bad(1), bad(2), bad(1), emptyPassQ},
+		[]att{bad(1), bad(2), bad(1), emptyNameL})
 	if thorough {
 		scripts = append(scripts, []att{bad(1), bad(2), bad(1), bad(2), bad(1), bad(2), bad(1), bad(2), bad(1), good}) // three rounds
 	}
@@ -983,7 +1015,7 @@ func (x *hs) jail(thorough bool, jailTime time.Duration, onlyFirst bool) error {
 				}
 				cl[a.conn] = c
 			}
-			k := cmd{K: "CLogin", Class: "notauth", Name: a.name, Pass: a.pass, Line: fmt.Sprintf("LOGIN %s %s", a.name, a.pass)}
+			k := loginCmd(a)
 			x.ctx.Current("jail "+scen, x.log)
 			sent := time.Now()
 			x.step(c, k, scen)
